@@ -161,6 +161,13 @@ func (cropOW *CropOverwrite) OverwriteCropParameters(cropFile string, g *GlobalV
 		}
 
 	}
+	// the temperature sum over all stages was accumulated while reading the crop file
+	if _, ok := cropOW.DevelopmentStageParameters["TSUM"]; ok {
+		l.tendsum = 0
+		for i := 0; i < l.NRENTW; i++ {
+			l.tendsum = l.tendsum + g.TSUM[i]
+		}
+	}
 	// overwrite partitioning parameters
 	for key, parts := range cropOW.PartitioningParameters {
 		if key == "PRO" {
